@@ -540,7 +540,7 @@ def encode_header(h, dc=None):
 
 
 def build_image(n_entries, blocks, dc=None, version=1, dates=(0, 0, 0), free_comment="", free_dates=(0, 0, 0),
-                with_spans=False, gaps=None):
+                with_spans=False, gaps=None, free_offsets=None):
     """A compact, well-formed file image: live blocks in table order, free slots trailing,
     every free slot's offset = end of data.  blocks: list of dicts with type, format,
     payload (bytes), comment, cdate, mdate, adate."""
@@ -553,8 +553,11 @@ def build_image(n_entries, blocks, dc=None, version=1, dates=(0, 0, 0), free_com
         enc_entry(e, {"type": b["type"], "format": b["format"], "offset": off, "size": len(b["payload"]),
                       "cdate": b["cdate"], "mdate": b["mdate"], "adate": b.get("adate", 0), "comment": b["comment"]})
         off += len(b["payload"]) + g
-    for _ in range(n_entries - len(blocks)):
-        enc_entry(e, {"type": 0, "format": 0, "offset": off, "size": 0, "cdate": free_dates[0], "mdate": free_dates[1],
+    for k in range(n_entries - len(blocks)):
+        # the first unused slot carries the end-of-data offset (that is what add_block reuses); later ones may hold
+        # anything in foreign files (the library re-points them on the next add)
+        o = off if k == 0 or not free_offsets else free_offsets[(k - 1) % len(free_offsets)]
+        enc_entry(e, {"type": 0, "format": 0, "offset": o, "size": 0, "cdate": free_dates[0], "mdate": free_dates[1],
                       "adate": free_dates[2], "comment": free_comment})
     assert len(e.buf) == HEADER_SIZE + ENTRY_SIZE * n_entries
     spans = list(e.spans)
